@@ -22,6 +22,98 @@ use uuid::Uuid;
 
 pub struct D;
 
+// ---------------------------------------------------------------------------------------------
+// allocation accounting (C11: "never … allocates beyond a small multiple of the input").
+// A counting global allocator: bytes currently allocated and their peak.  There must be exactly one
+// `#[global_allocator]` in the crate; if another domain needs it, move this block to util.rs.
+
+pub mod alloc_count {
+    use std::alloc::{GlobalAlloc, Layout, System};
+    use std::sync::atomic::{AtomicUsize, Ordering};
+
+    pub struct Counting;
+    static CUR: AtomicUsize = AtomicUsize::new(0);
+    static PEAK: AtomicUsize = AtomicUsize::new(0);
+
+    #[inline]
+    fn add(n: usize) {
+        let c = CUR.fetch_add(n, Ordering::Relaxed).wrapping_add(n);
+        PEAK.fetch_max(c, Ordering::Relaxed);
+    }
+    #[inline]
+    fn sub(n: usize) {
+        CUR.fetch_sub(n, Ordering::Relaxed);
+    }
+
+    unsafe impl GlobalAlloc for Counting {
+        unsafe fn alloc(&self, l: Layout) -> *mut u8 {
+            // the request is recorded even if it cannot be served (a refused huge reservation
+            // aborts the process; the peak of the requests before it is what the oracle reports)
+            add(l.size());
+            let p = System.alloc(l);
+            if p.is_null() {
+                sub(l.size());
+            }
+            p
+        }
+        unsafe fn alloc_zeroed(&self, l: Layout) -> *mut u8 {
+            add(l.size());
+            let p = System.alloc_zeroed(l);
+            if p.is_null() {
+                sub(l.size());
+            }
+            p
+        }
+        unsafe fn dealloc(&self, p: *mut u8, l: Layout) {
+            System.dealloc(p, l);
+            sub(l.size());
+        }
+        unsafe fn realloc(&self, p: *mut u8, l: Layout, new_size: usize) -> *mut u8 {
+            if new_size > l.size() {
+                add(new_size - l.size());
+            }
+            let q = System.realloc(p, l, new_size);
+            if q.is_null() {
+                if new_size > l.size() {
+                    sub(new_size - l.size());
+                }
+            } else if new_size < l.size() {
+                sub(l.size() - new_size);
+            }
+            q
+        }
+    }
+
+    /// runs `f` and returns its result and the peak number of bytes allocated *during* the call
+    /// over what was allocated when it started
+    pub fn measure<T>(f: impl FnOnce() -> T) -> (T, usize) {
+        let base = CUR.load(Ordering::Relaxed);
+        PEAK.store(base, Ordering::Relaxed);
+        let r = f();
+        (r, PEAK.load(Ordering::Relaxed).saturating_sub(base))
+    }
+}
+
+#[global_allocator]
+static GLOBAL_ALLOC: alloc_count::Counting = alloc_count::Counting;
+
+/// the bound of the allocation oracle: peak ≤ ALLOC_FACTOR · input bytes + ALLOC_SLACK
+const ALLOC_FACTOR: usize = 32;
+const ALLOC_SLACK: usize = 4096;
+
+fn alloc_oracle(what: &str, input_bytes: usize, peak: usize, o: &mut Oracle) {
+    o.add("alloc_checked", 1);
+    // (calibration aid: TW_ALLOC_FACTOR / TW_ALLOC_SLACK override the bound)
+    let factor = std::env::var("TW_ALLOC_FACTOR").ok().and_then(|x| x.parse().ok()).unwrap_or(ALLOC_FACTOR);
+    let slack = std::env::var("TW_ALLOC_SLACK").ok().and_then(|x| x.parse().ok()).unwrap_or(ALLOC_SLACK);
+    if peak > factor * input_bytes + slack {
+        o.fail(
+            "C11/allocation-exceeds-input-multiple",
+            format!("{}: peak {} bytes allocated while parsing {} input bytes (bound {}·input + {})", what, peak, input_bytes, factor, slack),
+        );
+    }
+}
+
 pub fn domain() -> Box<dyn Domain> {
     Box::new(D)
 }
@@ -359,6 +451,43 @@ fn build_raw(its: &[It]) -> Result<RawSnap, String> {
     Ok(b.finish())
 }
 
+/// what the documented limits (1024 items, 64 KiB, distinct keys) say `add_item` must answer
+fn expected_add(n_items: usize, words: usize, dup: bool, len: usize) -> &'static str {
+    if dup {
+        "DuplicateKey"
+    } else if n_items + 1 > 1024 {
+        "TooManyItems"
+    } else if 4 * (2 + 2 * (n_items + 1) + words + len) > 65536 {
+        "TooLongSnap"
+    } else {
+        "ok"
+    }
+}
+
+/// C10: the builder accepts exactly the snapshots inside the limits
+fn build_raw_checked(its: &[It], o: &mut Oracle) -> Result<RawSnap, String> {
+    let mut b = RawBuilder::new();
+    let mut keys = std::collections::BTreeSet::new();
+    let mut words = 0usize;
+    for (i, (t, id, d)) in its.iter().enumerate() {
+        let want = expected_add(keys.len(), words, keys.contains(&key_of(*t, *id)), d.len());
+        let r = b.add_item(*t, *id, d);
+        let got = match &r {
+            Ok(()) => "ok".to_string(),
+            Err(e) => format!("{:?}", e),
+        };
+        if got != want {
+            o.fail("C10+C11/builder-limit-mismatch", format!("add_item #{} ({} items, {} data words so far, {} new words): {} instead of {}", i, keys.len(), words, d.len(), got, want));
+        }
+        if let Err(e) = r {
+            return Err(format!("{:?}@{}", e, i));
+        }
+        keys.insert(key_of(*t, *id));
+        words += d.len();
+    }
+    Ok(b.finish())
+}
+
 fn key_of(t: u16, id: u16) -> i32 {
     (((t as u32) << 16) | id as u32) as i32
 }
@@ -416,7 +545,14 @@ impl R {
         let agree = sizes_agree(ai, bi);
         let okb = sizes_ok(osz, bi);
         let b_items = raw_items(b);
-        let b_crc = b.crc();
+        // the checksum as documented (doc/snapshot.md): wrapping sum of all data words
+        let b_crc = bi.iter().flat_map(|x| x.2.iter()).fold(0i32, |s, &v| s.wrapping_add(v));
+        for (name, snap, its) in [("a", a, ai), ("b", b, bi)] {
+            let want = its.iter().flat_map(|x| x.2.iter()).fold(0i32, |s, &v| s.wrapping_add(v));
+            if snap.crc() != want {
+                o.fail("C09+C10+C11/crc-mismatch", format!("snapshot {}: crc() = {} but the data words sum to {}", name, snap.crc(), want));
+            }
+        }
         let mut d = Delta::new();
         let created = catch(|| d.create_raw(a, b));
         let part1 = match created {
@@ -479,6 +615,11 @@ impl R {
             }
         };
         let si = raw_write_ints(b);
+        if let Wr::Ok(v) = &si {
+            if !wire_layout_ok(v) {
+                o.fail("C10+C11/wire-layout", "written snapshot: offsets not cumulative or keys not ascending (unsigned)".to_string());
+            }
+        }
         let sb = match raw_write_bytes(b) {
             Wr::Ok(v) => short(to_hex(&v)),
             Wr::Capacity => "capacity".to_string(),
@@ -601,17 +742,80 @@ fn fmt_recycle(s: &Snap, o: &mut Oracle) -> String {
     }
 }
 
+/// `(number of items, number of data words, wrapping sum of the data words)` of a snapshot, obtained
+/// without `write` (which asserts the limits): the delta from the empty snapshot lists every item
+fn snap_facts(s: &Snap) -> Option<(usize, usize, i32)> {
+    let mut d = Delta::new();
+    catch(|| d.create(&Snap::empty(), s)).ok()?;
+    let xs = delta_write_ints(&d, osz_none)?;
+    let mut i = 3 + xs[0] as usize;
+    let (mut n, mut words, mut sum) = (0usize, 0usize, 0i32);
+    while i < xs.len() {
+        let len = xs[i + 2] as usize;
+        for &v in &xs[i + 3..i + 3 + len] {
+            sum = sum.wrapping_add(v);
+        }
+        n += 1;
+        words += len;
+        i += 3 + len;
+    }
+    Some((n, words, sum))
+}
+
+/// the integers of a written snapshot are laid out as documented: header, cumulative offsets,
+/// items in ascending *unsigned* key order
+fn wire_layout_ok(xs: &[i32]) -> bool {
+    if xs.len() < 2 || xs[1] < 0 {
+        return false;
+    }
+    let n = xs[1] as usize;
+    if xs.len() < 2 + n || xs[0] as usize != (xs.len() - 2 - n) * 4 {
+        return false;
+    }
+    let mut prev_key: Option<u32> = None;
+    for i in 0..n {
+        let off = xs[2 + i];
+        if off < 0 || off % 4 != 0 || (i == 0 && off != 0) || (i > 0 && off <= xs[2 + i - 1]) {
+            return false;
+        }
+        let pos = 2 + n + off as usize / 4;
+        if pos >= xs.len() {
+            return false;
+        }
+        let key = xs[pos] as u32;
+        if let Some(p) = prev_key {
+            if key <= p {
+                return false;
+            }
+        }
+        prev_key = Some(key);
+    }
+    true
+}
+
 /// C11: every accepted snapshot obeys the limits, can be written and read back to an equal one,
 /// and every other operation on it returns.
 fn follow_ups(s: &Snap, o: &mut Oracle) -> String {
+    match snap_facts(s) {
+        Some((n_items, words, sum)) => {
+            let bytes = 4 * (2 + 2 * n_items + words);
+            if n_items > 1024 || bytes > 65536 {
+                o.fail("C11/limits", format!("accepted snapshot with {} items, {} bytes", n_items, bytes));
+            }
+            if sum != s.crc() {
+                o.fail("C09+C10+C11/crc-mismatch", format!("crc() = {} but the data words sum to {}", s.crc(), sum));
+            }
+        }
+        None => o.fail("C11/followup-panic", "Delta::create from the empty snapshot fails".to_string()),
+    }
     let wi = snap_write_ints(s);
     let mut n = 0;
     let mut rt = "0";
     match &wi {
         Wr::Ok(xs) => {
             n = xs[1];
-            if xs[1] > 1024 || xs.len() * 4 > 65536 {
-                o.fail("C11/limits", format!("accepted snapshot with {} items, {} bytes", xs[1], xs.len() * 4));
+            if !wire_layout_ok(xs) {
+                o.fail("C10+C11/wire-layout", "written snapshot: offsets not cumulative or keys not ascending (unsigned)".to_string());
             }
             let items = fmt_snap_items(s);
             let same = |r: &Rs<Snap>| match r {
@@ -862,6 +1066,16 @@ fn vm_step(vm: &mut Vm, tok: &str, o: &mut Oracle) {
             let s = b.finish();
             let direct = fmt_snap(&s);
             let wi = snap_write_ints(&s);
+            if let Wr::Ok(xs) = &wi {
+                if !wire_layout_ok(xs) {
+                    o.fail("C10+C11/wire-layout", "written snapshot: offsets not cumulative or keys not ascending (unsigned)".to_string());
+                }
+            }
+            if let Some((_, _, sum)) = snap_facts(&s) {
+                if sum != s.crc() {
+                    o.fail("C09+C10+C11/crc-mismatch", format!("crc() = {} but the data words sum to {}", s.crc(), sum));
+                }
+            }
             let (vb, vi) = match &wi {
                 Wr::Ok(xs) => (snap_read_bytes(&pack_ints(xs)), snap_read_ints(xs)),
                 _ => (Rs::Panic, Rs::Panic),
@@ -993,11 +1207,11 @@ impl Runner for R {
                     (Some(x), Some(y), Some(z)) => (x, y, z),
                     _ => return "bad-op".to_string(),
                 };
-                let a = match build_raw(&ai) {
+                let a = match build_raw_checked(&ai, o) {
                     Ok(s) => s,
                     Err(e) => return format!("builderr:a:{}", e),
                 };
-                let b = match build_raw(&bi) {
+                let b = match build_raw_checked(&bi, o) {
                     Ok(s) => s,
                     Err(e) => return format!("builderr:b:{}", e),
                 };
@@ -1028,19 +1242,35 @@ impl Runner for R {
                 format!("h {}", h)
             }
             ["rsnap", "i", d] => match parse_ints(d) {
-                Some(xs) => op_rsnap(snap_read_ints(&xs), o),
+                Some(xs) => {
+                    let (r, peak) = alloc_count::measure(|| snap_read_ints(&xs));
+                    alloc_oracle("Snap::read_from_ints", xs.len() * 4, peak, o);
+                    op_rsnap(r, o)
+                }
                 None => "bad-op".to_string(),
             },
             ["rsnap", "b", d] => match parse_hex(d) {
-                Some(bs) => op_rsnap(snap_read_bytes(&bs), o),
+                Some(bs) => {
+                    let (r, peak) = alloc_count::measure(|| snap_read_bytes(&bs));
+                    alloc_oracle("Snap::read", bs.len(), peak, o);
+                    op_rsnap(r, o)
+                }
                 None => "bad-op".to_string(),
             },
             ["rdelta", oszname, "i", d, base] => match (parse_osz(oszname), parse_ints(d), parse_ints(base)) {
-                (Some(osz), Some(xs), Some(base)) => op_rdelta(osz, read_delta_ints(osz, &xs), &base, o),
+                (Some(osz), Some(xs), Some(base)) => {
+                    let (r, peak) = alloc_count::measure(|| read_delta_ints(osz, &xs));
+                    alloc_oracle("Delta::read_from_ints", xs.len() * 4, peak, o);
+                    op_rdelta(osz, r, &base, o)
+                }
                 _ => "bad-op".to_string(),
             },
             ["rdelta", oszname, "b", d, base] => match (parse_osz(oszname), parse_hex(d), parse_ints(base)) {
-                (Some(osz), Some(bs), Some(base)) => op_rdelta(osz, read_delta_bytes(osz, &bs), &base, o),
+                (Some(osz), Some(bs), Some(base)) => {
+                    let (r, peak) = alloc_count::measure(|| read_delta_bytes(osz, &bs));
+                    alloc_oracle("Delta::read", bs.len(), peak, o);
+                    op_rdelta(osz, r, &base, o)
+                }
                 _ => "bad-op".to_string(),
             },
             ["build", rest @ ..] => {
@@ -1385,12 +1615,13 @@ fn gen_all(tier: &str, seed: u64, w: &mut dyn Write) {
             sweeps.push(("ddnet", 0b1001, 32));
             sweeps.push(("none", 0b1111, 4));
             sweeps.push(("ddnet", 0b1111, 4));
+            sweeps.push(("none", 0b1111, 7)); // 2401² = 5.76 M pairs
         }
         for (name, mask, radix) in sweeps {
             let nk = (mask as u32).count_ones();
             let total = radix.pow(nk);
             let pairs = total * total;
-            let chunk = 3000;
+            let chunk = if pairs > 2_000_000 { 20000 } else { 3000 };
             let mut lo = 0;
             while lo < pairs {
                 let hi = (lo + chunk).min(pairs);
@@ -1703,7 +1934,7 @@ fn gen_all(tier: &str, seed: u64, w: &mut dyn Write) {
             writeln!(w, "rsnap i {}", fmt_ints(&xs)).unwrap();
         }
         // limits: 1024 / 1025 items, 65536 / 65540 bytes
-        for &(count, len) in &[(1024usize, 0usize), (1025, 0), (1024, 14), (1024, 15), (1, 16380), (1, 16381), (2, 8189), (2, 8190)] {
+        for &(count, len) in &[(1024usize, 0usize), (1025, 0), (1023, 0), (1024, 14), (1024, 15), (1, 16380), (1, 16381), (1, 16379), (1, 16378), (2, 8189), (2, 8190)] {
             let mut xs = vec![0, count as i32];
             for i in 0..count {
                 xs.push((i * 4 * (len + 1)) as i32);
@@ -1717,6 +1948,10 @@ fn gen_all(tier: &str, seed: u64, w: &mut dyn Write) {
             // a delta that grows a full snapshot past the limits
             let d = [0, 1, 0, 65, 7, 2, 1, 2];
             writeln!(w, "rdelta none i {} {}", fmt_ints(&d), fmt_ints(&xs)).unwrap();
+            // … and one that adds an empty item (8 bytes): 65528 -> 65536 fits, 65532 -> 65540 does not
+            let d = [0, 1, 0, 65, 7, 0];
+            writeln!(w, "rdelta none i {} {}", fmt_ints(&d), fmt_ints(&xs)).unwrap();
+            writeln!(w, "rdelta none b {} {}", to_hex(&pack_ints(&d)), fmt_ints(&xs)).unwrap();
         }
     }
 }
